@@ -12,6 +12,7 @@ SIZES = [1, 2, 2, 3, 3, 4, 5]
 REDUCE = ["sum", "mean", "var", "std", "prod", "count_nonzero", "all", "any", "min", "max", "logsumexp"]
 ELEMENTWISE2 = ["add", "subtract", "multiply", "true_divide", "floor_divide", "divide", "logical_and", "logical_or", "maximum", "minimum",
                 "less", "less_equal", "greater", "greater_equal", "equal", "not_equal", "logaddexp"]
+NARY = ["add", "multiply", "logical_and", "logical_or", "maximum", "minimum", "logaddexp"]
 PRESERVE = ["flip", "roll", "sort", "argsort", "softmax", "log_softmax"]
 
 
@@ -228,7 +229,18 @@ def gen_elementwise(rng):
             note = []
     else:
         desc = f"{e1}, {e2} -> {' '.join(group(rng, out, 0.2))}"
-    return {"op": op, "family": "elementwise", "desc": desc, "shapes": [shape_of_expr(e1, sizes), shape_of_expr(e2, sizes)], "kwargs": kwargs, "note": note}
+    shapes = [shape_of_expr(e1, sizes), shape_of_expr(e2, sizes)]
+    if rng.random() < 0.2 and "->" in desc:
+        # a third operand: valid for the n-ary operations, an argument-count error for the binary ones (their third
+        # positional argument would be numpy's `out=`)
+        sub3 = [nm for nm in names if rng.random() < 0.7] or [names[0]]
+        rng.shuffle(sub3)
+        e3 = " ".join(sub3)
+        ins, out_e = desc.split("->")
+        desc = f"{ins.strip()}, {e3} -> {out_e.strip()}"
+        shapes.append(shape_of_expr(e3, sizes))
+        note = note + ["three-operands" if op in NARY else "invalid-arity"]
+    return {"op": op, "family": "elementwise", "desc": desc, "shapes": shapes, "kwargs": kwargs, "note": note}
 
 
 def gen_dot(rng):
